@@ -71,12 +71,15 @@ def _pairs(S, n):
     return out
 
 
-def _surfaces_of(pairs, sides):
+def _surfaces_of(pairs, sides, flips=None):
+    """flips[k] = -1: the second plane of pair k is written with the opposite (antiparallel, rescaled) normal, as
+    when one plane is a PX card and the other a general P card: the side flag follows the normal."""
     surfs = []
-    for (nrm, p1, p2), (s1, s2) in zip(pairs, sides):
+    flips = flips or [1] * len(pairs)
+    for (nrm, p1, p2), (s1, s2), fl in zip(pairs, sides, flips):
         surfs.append(((p1, nrm), s1))
-        # the second plane of a pair is parallel; its normal may point either way
-        surfs.append(((p2, nrm), s2))
+        n2 = nrm if fl == 1 else tuple(-2 * x for x in nrm)
+        surfs.append(((p2, n2), s2 * fl))
     return surfs
 
 
@@ -89,12 +92,16 @@ class _SquareBase:
     def cases(S):
         for n in (1, 2, 3):
             for sides in itertools.product((1, -1), repeat=n):
-                yield f'{n}pairs,first-sides={sides}', {'pairs': _pairs(S, n), 'sides': [(s, -s) for s in sides]}
+                for flips in itertools.product((1, -1), repeat=n):
+                    if n == 3 and flips not in ((1, 1, 1), (-1, -1, -1), (1, -1, 1)):
+                        continue
+                    yield (f'{n}pairs,first-sides={sides},second-normals={flips}',
+                           {'pairs': _pairs(S, n), 'sides': [(s, -s) for s in sides], 'flips': flips})
 
-    def call(pairs, sides):
-        return LT.squareLatticeBaseVectors(_surfaces_of(pairs, sides))
+    def call(pairs, sides, flips):
+        return LT.squareLatticeBaseVectors(_surfaces_of(pairs, sides, flips))
 
-    def requires(pairs, sides):
+    def requires(pairs, sides, flips):
         conds = []
         for nrm, p1, p2 in pairs:
             conds += [dot(nrm, nrm) > 0, dot(sub(p1, p2), nrm) != 0]
@@ -106,7 +113,7 @@ class _SquareBase:
             conds.append(dot(ns[0], cross(ns[1], ns[2])) != 0)
         return And(*conds)
 
-    def ensures(result, pairs, sides):
+    def ensures(result, pairs, sides, flips):
         n = len(pairs)
         yield 'as-many-vectors', len(result) == n
         for k, ((nrm, p1, p2), (s1, _)) in enumerate(zip(pairs, sides)):
